@@ -1218,6 +1218,28 @@ theorem failed_ingest_invisible_mem (inflate : Inflate) (H : Hash) (valid : Obj 
         · intro h; cases h
         · intro _; rfl
 
+/-- **failed_ingest_restores_prestate.**  For ARBITRARY overlap between the ids of the pack and the ids the store
+already holds — copies before and after the offending entry, as full objects or as deltas resolving to existing
+ids — a refused ingest returns the very store it was given: same ids, same objects, same order; nothing of the
+pre-state is "rolled back" away.  (Both stores, both paths; the store is an arbitrary list, the pack arbitrary
+bytes.) -/
+theorem failed_ingest_restores_prestate (inflate : Inflate) (H : Hash) (deflate : Bytes → Bytes) (valid : Obj → Bool)
+    (p : Path) (s : Store) (inp : Bytes) (e : Err) :
+    ((ingestMem inflate H valid p s inp).2 = some e → (ingestMem inflate H valid p s inp).1 = s) ∧
+    ((ingestDisk inflate H deflate valid p s inp).2 = some e → (ingestDisk inflate H deflate valid p s inp).1 = s) :=
+  ⟨failed_ingest_invisible_mem inflate H valid p s inp e, failed_ingest_invisible_disk inflate H deflate valid p s inp e⟩
+
+/-- What a refusal implemented as "add while resolving, on failure remove the ids of the pack" would do:
+it also removes what the store held before under one of those ids. -/
+def rollbackByRemoval (s : Store) (added : List Obj) : Store :=
+  (s ++ added).filter fun o => !(added.any fun a => a.name == o.name)
+
+/-- … which is NOT the pre-state as soon as the pack carries a copy of an object of the store (`decide`). -/
+theorem rollback_by_removal_loses_prestate :
+    let x : Obj := ⟨[1], 3, [97]⟩
+    let w : Obj := ⟨[2], 3, [98]⟩
+    rollbackByRemoval [x, w] [x] = [w] ∧ rollbackByRemoval [x, w] [x] ≠ [x, w] := by decide
+
 /-- Non-vacuity: a pack with a wrong trailer fails (checksum) through the thin path and leaves the store as it was. -/
 example : ingestDisk toyInflate toyH toyDeflate (fun _ => true) .thin [] (toyPack.take 30 ++ List.replicate 15 0)
     = ([], some .checksum) := by decide
@@ -1276,6 +1298,12 @@ theorem old_failed_ingest_invisible_mem_false :
   rw [this] at h2
   simp at h2
 
+/-- Non-vacuity of the overlap: the store holds "ab"; the pack carries a copy of it before a REF delta whose base
+exists nowhere.  Refused, and the store is exactly what it was. -/
+example :
+    (ingestMem toyInflate toyH (fun _ => true) .addPack [⟨List.replicate 20 0x3F, 3, [97, 98]⟩] blobThenMissingRef)
+      = ([⟨List.replicate 20 0x3F, 3, [97, 98]⟩], some .key) := by decide
+
 /-! ## 5. the file-system steps of the disk paths (generated flags decide which steps exist) -/
 
 def allPrefixes (ops : List FsOp) : List (List FsOp) := (List.range (ops.length + 1)).map ops.take
@@ -1322,6 +1350,41 @@ theorem old_fs_rollback_skipped_witness :
 
 theorem old_fs_tmp_leak_witness :
     (runOps {} (diskProgramC Cfg.old .thin .copy)).tmp = true ∧ (runOps {} (diskProgramC Cfg.old .addPack .copy)).tmp = true := by decide
+
+/-! ## 5a. a fault at any step -/
+
+/-- **failed_ingest_invisible_any_fault.**  Take the ingest program with the index write under its `removesPack` handler
+and no reachable unguarded step between installation and validation (what the translator establishes:
+`Gen.idxWriteGuarded`, `Gen.unguardedCallsAfterInstall = 0`, `Gen.ingestPassesRefs = false`), and a rollback that
+attempts every removal on its own.  Then for EVERY step `k` at which a call raises (OSError or an interrupt alike),
+and EVERY removal `j` of the rollback that a second fault may hit, the new pack is not visible afterwards — whatever
+the order of the removals. -/
+theorem failed_ingest_invisible_any_fault :
+    [true, false].all (fun idxFirst => [true, false].all fun cleanupTmp =>
+      (List.range (ingestSteps true false).length).all fun k =>
+        [none, some 0, some 1].all fun j =>
+          !(faultRun (ingestSteps true false) cleanupTmp idxFirst true k j).visible) = true := by decide
+
+/-- … and with the temp file removed by the caller nothing at all is left when no second fault interferes. -/
+theorem failed_ingest_any_fault_leaves_nothing :
+    (List.range (ingestSteps true false).length).all (fun k =>
+      [true, false].all fun idxFirst => faultRun (ingestSteps true false) true idxFirst true k none == {}) = true := by decide
+
+/-- The code that exists satisfies the structural hypotheses (regenerated every run): moving a call out of the
+handlers, or passing `refs` from an ingestion path (which makes the unguarded bitmap block reachable), breaks this. -/
+theorem complete_pack_structure :
+    Gen.Ingest.idxWriteGuarded = true ∧ Gen.Ingest.unguardedCallsAfterInstall = 0 ∧ Gen.Ingest.ingestPassesRefs = false := by
+  decide
+
+/-- **rollback_cut_short_counterexample** (the handler as it is before the fix: pack first, and the first removal that
+fails ends the rollback): a fault at the removal of the pack leaves pack AND index — the rejected pack stays visible. -/
+theorem rollback_cut_short_counterexample :
+    (faultRun (ingestSteps true false) true false false 5 (some 0)).visible = true ∧
+    (faultRun (ingestSteps true false) true false false 6 (some 0)).visible = true := by decide
+
+/-- An unguarded step between installation and validation (the bitmap block, were it reachable) would do the same. -/
+theorem unguarded_step_after_install_counterexample :
+    (faultRun (ingestSteps true true) true true true 5 none).visible = true := by decide
 
 /-! ## 5b. a caching reader contains a failed read (`DiskRefsContainer.get_packed_refs`) -/
 
@@ -1452,7 +1515,7 @@ theorem guards_present :
     Gen.Ingest.zlibBounded = true ∧ Gen.Ingest.zlibSizeChecked = true ∧ Gen.Ingest.trailerVerified = true ∧
     Gen.Ingest.ofsZeroRejected = true ∧ Gen.Ingest.selfRefChecked = true ∧ Gen.Ingest.memChecksTrailer = true ∧
     Gen.Ingest.rollbackRemovesPack = true ∧ Gen.Ingest.rollbackRemovesIdx = true ∧ Gen.Ingest.abortRemovesTmp = true ∧
-    Gen.Ingest.packedRefsKeyAfterParse = true ∧ Gen.Ingest.packedRefsStaleChecked = true ∧
+    Gen.Ingest.memCommitDeletes = false ∧ Gen.Ingest.packedRefsKeyAfterParse = true ∧ Gen.Ingest.packedRefsStaleChecked = true ∧
     Gen.Ingest.packedRefsRewriteInvalidates = true ∧
     Cfg.current = ⟨true, true, true, false, (true, true), true⟩ := by
   decide
